@@ -2,6 +2,7 @@
   C04 — identities that match no recipient never obtain plaintext.
 -/
 import Proofs.FileDecrypt
+import Props.C01
 import Proofs.ScryptEquiv
 import Proofs.ScryptNul
 import AgeModel.Exec.FileExec
@@ -190,6 +191,29 @@ theorem finding_K1_nul_suffix_passphrase (pw : Bytes) (h : pw.length < 64) (m : 
   | nil => exact .cons (scryptIdentity_same _ pw (pw ++ [0]) m (finding_K1_same_kdf pw h)) (hrefl post)
   | cons i is ih => exact .cons (fun _ => rfl) ih
 
+/-! ## Known finding K2 — same root cause: HMAC replaces a key longer than its
+    64-byte block by the key's SHA-256 digest, so for a passphrase longer than 64
+    bytes the 32 digest bytes, used as a passphrase, are the same identity. -/
+
+theorem finding_K2_same_kdf (pw : Bytes) (h : pw.length > 64) :
+    ∀ salt n, Exec.File.concrete.scrypt (Crypto.sha256 pw) salt n = Exec.File.concrete.scrypt pw salt n := by
+  intro salt n
+  exact (Crypto.scrypt_long_passphrase pw salt n 8 1 32 h).symm
+
+theorem finding_K2_digest_passphrase (pw : Bytes) (h : pw.length > 64) (m : Nat)
+    (pre post : List Identity) (file : Bytes) :
+    decryptInit Exec.File.concrete (pre ++ Identity.scrypt (Crypto.sha256 pw) m :: post) file =
+      decryptInit Exec.File.concrete (pre ++ Identity.scrypt pw m :: post) file := by
+  apply decryptInit_congr
+  have hrefl : ∀ l : List Identity, SameIds Exec.File.concrete l l := by
+    intro l
+    induction l with
+    | nil => exact .nil
+    | cons i is ih => exact .cons (fun _ => rfl) ih
+  induction pre with
+  | nil => exact .cons (scryptIdentity_same _ pw (Crypto.sha256 pw) m (finding_K2_same_kdf pw h)) (hrefl post)
+  | cons i is ih => exact .cons (fun _ => rfl) ih
+
 /-- an SSH identity whose tag differs from the stanza's answers "incorrect identity" -/
 theorem ssh_other_tag_incorrect (P : Prims) (w k : Bytes) (s : Stanza) (tag : Bytes)
     (ht : s.type = tSshRsa) (hargs : s.args = [tag]) (hne : tag ≠ sshTag P w) :
@@ -197,6 +221,11 @@ theorem ssh_other_tag_incorrect (P : Prims) (w k : Bytes) (s : Stanza) (tag : By
 
 /-- non-vacuity: a header with one grease stanza and an X25519 identity -/
 example : ∀ s ∈ [({ type := [103], args := [], body := [] } : Stanza)], s.type ≠ tX25519 := by decide
+
+/-- non-vacuity of `reader_requires_key`: a concrete run in which a reader IS obtained (toy primitives) -/
+example : ∃ ids file k payload c, decryptInit Prims.toy ids file = (.ok (k, payload), c) :=
+  let ⟨f, k, p, _, _, h⟩ := Props.C01.nonvacuous_roundtrip
+  ⟨_, f, k, p, 1, h⟩
 
 end Props.C04
 end AgeModel
